@@ -4,7 +4,7 @@ import random
 from fractions import Fraction as Fr
 
 from .. import families as fam
-from ..dsl import Cfg, leaves
+from ..dsl import Cfg, leaves, Spec, Sym, X, U, Pg, t, nl1
 from ..instance import Inst
 from ..match import Checker
 from ..ref import shooting as ref
@@ -56,6 +56,12 @@ def instances(tier, seed):
     for mi, (method, intg, M) in enumerate((('MS', 'rk', 3), ('SS', 'expl_euler', 4), ('MS', 'expl_euler', 3), ('SS', 'rk', 3))):
         add(fam.with_horizon(core[mi % 2], H[(mi * 2 + 1) % len(H)]), Cfg(method, N=2, M=M, intg=intg, grid=[fam.G_UNI, fam.G_GEO_LOC][mi % 2]))
     add(fam.with_horizon(dcore[0], H[1]), Cfg('MS', N=2, M=3, intg='rk', grid=fam.G_UNI))
+    # a vector-valued state whose right-hand side is given as ONE scalar (repeated), next to another state
+    from ..dsl import Spec
+    sb = Spec(nx=3, nu=1, xshape=[(2, 1), (1, 1)], ode=[Pg('a') * t, Pg('a') * t, nl1(X(0)) + U(0) * X(1)], params=[Sym('a', value=2)],
+              ode_broadcast={0: Pg('a') * t}, note='scalar right-hand side for a vector state')
+    for method, intg in (('MS', 'rk'), ('SS', 'expl_euler')):
+        add(fam.with_horizon(sb, H[1]), Cfg(method, N=2, M=2, intg=intg, grid=fam.G_UNI))
     for s in dcore:
         for method in ('MS', 'SS'):
             h = H[n % len(H)]
